@@ -2247,6 +2247,10 @@ def lemma_vcs(lib, lem):
                 g = sp_.ev_bool(h[1])
                 vcs.append(VC('%s::%s.hint%d.assert' % (key, tag, hi_), out, g))
                 out.append(g)
+            elif h[0] == 'focus':
+                # from here on only the quantifier-free hypotheses are used (requires, induction hypothesis, asserted instances):
+                # the needed instances of the quantified facts have been extracted by the assertions above
+                out = [x for x in out if not has_quantifier(x)]
             elif h[0] == 'lemma?':
                 other = lib.lemmas[h[1]]
                 a = [sp_.ev_str(x) for x in h[2]]
